@@ -54,12 +54,18 @@ def repo_head():
     return out.strip() + ('+dirty' if st.strip() else '')
 
 # ------------------------------------------------------------------------------------------------ locking
+_held = {}
 class Lock:
-    def __init__(self, name): self.path = os.path.join(CACHE, name + '.lock')
+    """inter-process lock (flock), re-entrant within one process"""
+    def __init__(self, name): self.name = name; self.path = os.path.join(CACHE, name + '.lock')
     def __enter__(self):
-        self.f = open(self.path, 'w'); fcntl.flock(self.f, fcntl.LOCK_EX); return self
+        h = _held.get(self.name)
+        if h: h[1] += 1; return self
+        f = open(self.path, 'w'); fcntl.flock(f, fcntl.LOCK_EX); _held[self.name] = [f, 1]; return self
     def __exit__(self, *a):
-        fcntl.flock(self.f, fcntl.LOCK_UN); self.f.close()
+        h = _held[self.name]; h[1] -= 1
+        if h[1] == 0:
+            fcntl.flock(h[0], fcntl.LOCK_UN); h[0].close(); del _held[self.name]
 
 # ------------------------------------------------------------------------------------------------ link (A): translator
 def regenerate(only=None):
